@@ -161,6 +161,10 @@ func (fc *FnCtx) loopHeader(li *loopInfo, st *State) *State {
 		fc.wmDeclared = map[string]bool{}
 	}
 	fc.wmDeclared[wm.Op] = true
+	fc.wmTerms = append(fc.wmTerms, wm)
+	for _, fn := range fc.subFns {
+		fc.relateSubWm(fn, wm)
+	}
 	// 2. havoc
 	st2 := st.clone()
 	for _, k := range smt.SortedKeys(li.written) {
